@@ -10,10 +10,10 @@ from hypothesis import strategies as st
 from vf import cfgref
 
 TERMS = ["a", "b", "c", "d"]
-NTS = ["S", "A", "B", "C", "D"]
+NTS = ["S", "A", "B", "C", "D", "E"]
 UNDEF = "U"  # a nonterminal without rules (low rate)
 
-BODY_LEN = [0] * 15 + [1] * 35 + [2] * 35 + [3] * 12 + [4] * 3
+BODY_LEN = [0] * 15 + [1] * 35 + [2] * 34 + [3] * 11 + [4] * 3 + [5, 6]
 
 
 def F(x):
@@ -45,8 +45,37 @@ def resymbol(g, mode):
 
 
 def size(tier):
-    "grammar size bounds per tier: the thorough tier also explores 5 nonterminals / 10 rules"
-    return {"max_nt": 5, "max_rules": 10} if tier == "thorough" else {}
+    "grammar size bounds per tier: the thorough tier also explores 6 nonterminals / 12 rules"
+    return {"max_nt": 6, "max_rules": 12} if tier == "thorough" else {}
+
+
+@st.composite
+def derived_strings(draw, g, k=3, maxlen=6, fuel=40):
+    """up to k terminal strings obtained by random leftmost derivations of the (weighted, JSON) grammar
+    g -- longer than the exhaustive bound, so that wide spans and deep charts are exercised too"""
+    V = [cfgref.sym(v) for v in g["V"]]
+    Vs = set(V)
+    by = {}
+    for r in g["rules"]:
+        by.setdefault(cfgref.sym(r[-2]), []).append([cfgref.sym(y) for y in r[-1]])
+    out = []
+    for _ in range(k):
+        form, res, left = [cfgref.sym(g["S"])], [], fuel
+        while form and left > 0 and len(res) <= maxlen:
+            y = form.pop(0)
+            if y in Vs:
+                res.append(y)
+                continue
+            if y not in by:
+                break
+            left -= 1
+            # prefer short bodies when the fuel runs low so that derivations terminate
+            opts = by[y] if left > fuel // 2 else sorted(by[y], key=len)[: max(1, len(by[y]) // 2)]
+            form = list(opts[draw(st.integers(0, len(opts) - 1))]) + form
+        else:
+            if not form and len(res) <= maxlen:
+                out.append(list(res))
+    return out
 
 
 # ---------------------------------------------------------------------------------------------
@@ -232,7 +261,11 @@ def weights(draw, g, regime):
         ws = [f"x{i + 1}" for i in range(len(rules))]
     else:
         style = draw(st.integers(0, 9))
-        if style in (6, 7):
+        nonrec = cfgref.find_cycle_rule([(h, y, r) for r, (h, b) in enumerate(rules) for y in b if y not in V]) is None
+        if nonrec and regime in ("QQ", "REAL", "FLOAT") and style < 4:
+            # a non-recursive grammar has finitely many derivations: any weights do, also > 1
+            ws = [draw(st.sampled_from(FREE_W + ["5/2", "7", "1/8"])) for _ in rules]
+        elif style in (6, 7):
             # PCFG style: the weights of the rules of one head sum to exactly one wherever the head
             # has a terminal-only rule, and sum_r w_r * n_r <= 3/4 (subcritical, so the fixed point
             # iteration still contracts); heads without a terminal-only rule get dominated weights.
@@ -385,9 +418,9 @@ def all_strings(V, n):
 # automata / transducers / graphs
 
 STATE_POOLS = {
-    "int": [0, 1, 2, 3, 4],
-    "str": ["p", "q", "r", "s", "t"],
-    "tuple": [["s", 0], ["s", 1], ["s", 2], ["s", 3], ["s", 4]],
+    "int": [0, 1, 2, 3, 4, 5, 6],
+    "str": ["p", "q", "r", "s", "t", "u", "v"],
+    "tuple": [["s", 0], ["s", 1], ["s", 2], ["s", 3], ["s", 4], ["s", 5], ["s", 6]],
 }
 FREE_W = ["1/2", "1/3", "2", "3", "5/7", "1", "1/4", "3/2"]
 
